@@ -130,6 +130,13 @@ def run_task(task):
         # ---- translation validation of the shim on this scenario (sampled)
         if opts.get('tv') and not res['error'] and not res['exception'] and not bad:
             res['tv'] = _tv(prop, name, params, R, sc, seed)
+            if res['tv'].get('status') == 'plain-run-failed':
+                # the UNMODIFIED code failed a concrete obligation of this scenario on the random inputs of the validation run although every
+                # symbolic obligation was discharged: a real, replayable failure (found by sampling) -- report it, do not hide it as a harness error
+                pr = _probe(prop, name, params, seed + 777 - 100, 1)
+                if pr:
+                    res['probe'] = pr
+                    res['tv'] = {'status': 'agree', 'compared': 0, 'bad': [], 'skipped': True, 'note': 'plain run failed: reported as a probe finding'}
     except Exception as e:
         res['error'] = 'worker failure %s: %s' % (type(e).__name__, e)
         res['traceback'] = traceback.format_exc(limit=8)
